@@ -413,8 +413,8 @@ class Check(DiffCheck):
                   ('T100 | S | R | A', 8), ('S | V100 | r | A', 8), ('T100 | S | R | R | A', 7)]
     # coarse interleavings of 4-5 participants: every word of L bursts, a burst = one participant runs until it blocks / returns
     # (or: the timer of a timed participant fires); words with the same expansion are run once.  (scripts, L quick, L thorough)
-    E3U_BURST = [('T100 | S | R | R | A', 7, 8), ('S | S | R | R', 7, 9), ('S | s | R | r', 7, 9), ('S | R | r | C', 7, 9),
-                 ('T100 | S | V100 | R | A', 6, 8), ('S S | s | R R | r', 6, 8)]
+    E3U_BURST = [('T100 | S | R | R | A', 7, 8), ('S | S | R | R', 7, 10), ('S | s | R | r', 7, 10), ('S | R | r | C', 7, 10),
+                 ('T100 | S | V100 | R | A', 6, 7), ('S S | s | R R | r', 6, 9)]
     # seeded C09_3 (try_recv tests m_handoff_ready before taking the mutex): receiver asleep, sender deposits, try_recv
     # starts (sees the slot full), the receiver takes the value, try_recv gets the mutex
     E3U_WITNESSES = ['Ux | R | S | r | 000111112002', 'Ux | S | R | r | 111000002112']
@@ -583,8 +583,8 @@ class Check(DiffCheck):
         def better(v, h): return not v or len(h) < len(v[0]['case'])
         for c, h, e, i in zip(cases, hc, exp, io):
             i = (i or '').strip()
-            if re.match(r'^CRASH\((timeout|97)\)', i):
-                continue                   # the machine was too slow for the E3 watchdog: not a verdict
+            if re.match(r'^CRASH\((timeout|97)\)', i) or 'Resource temporarily unavailable' in i:
+                continue                   # the machine was too slow for the E3 watchdog / out of threads: not a verdict
             msched = c.split('|')[-1].strip() or '-'
             if i == e:
                 # lock-step agreement up to the model's quiescent end state: the outcome is final, evaluate the property on it
@@ -610,13 +610,13 @@ class Check(DiffCheck):
             rc = []
             for c, h, e in redo:
                 secs = h.split('|'); n = len(secs) - 2; sched = secs[-1].strip()
-                sched += ''.join(D[p] + D[p + n] for p in range(n)) * 60
+                sched += ''.join(D[p] + D[p + n] for p in range(n)) * 60 + ''.join(D[p + 2 * n] for p in range(n))   # .. then dismiss the sleepers
                 rc.append('U %d |%s| %s' % (len(sched) + 10, '|'.join(secs[1:-1]), sched))
             ro = run_cases(iexe, rc, ctx['tmp'], 'e3uredo', timeout=1200, env=self.impl_env())
             best = None
             for (c, h, e), r, i in zip(redo, rc, ro):
                 i = (i or '').strip()
-                if re.match(r'^CRASH\((timeout|97)\)', i): continue
+                if re.match(r'^CRASH\((timeout|97)\)', i) or 'Resource temporarily unavailable' in i: continue
                 o = self.e3u_oracle(r, i)
                 if o and (best is None or len(r) < len(best[1])): best = (c, r, e, i, o, h)
             if best and better(ovio, best[1]):
@@ -625,7 +625,7 @@ class Check(DiffCheck):
                 secs = h.split('|'); n = len(secs) - 2
                 alts = []
                 for k in (1, 2, 3, 5, 8, 13, 21, 34):
-                    sched = secs[-1].strip() + ''.join(D[p] + D[p + n] for p in range(n)) * k
+                    sched = secs[-1].strip() + ''.join(D[p] + D[p + n] for p in range(n)) * k + ''.join(D[p + 2 * n] for p in range(n))
                     alts.append('U %d |%s| %s' % (len(sched) + 2 * n, '|'.join(secs[1:-1]), sched))
                 ao = run_cases(iexe, alts, ctx['tmp'], 'e3ushrink', timeout=600, env=self.impl_env())
                 for a, x in zip(alts, ao):
